@@ -129,7 +129,7 @@ func genTotCase(rng *rand.Rand) (*totCase, []string) {
 		}
 		rq := totReq{Method: core.B(m), Path: core.B(p)}
 		for k := rng.Intn(3); k > 0; k-- {
-			rq.Hdr = append(rq.Hdr, [2]string{[]string{"X-K", "X-K", "Accept", "Content-Type", "x-odd header", "", "X-Forwarded-For", "X-Real-Ip"}[rng.Intn(8)], []string{"v1", "1", "", "zz", ",", ", ,", " ", "1.2.3.4, 5.6.7.8", ":"}[rng.Intn(9)]})
+			rq.Hdr = append(rq.Hdr, [2]string{[]string{"X-K", "X-K", "Accept", "Content-Type", "x-odd header", "", "X-Forwarded-For", "X-Real-Ip", "X-HTTP-Method-Override", "X-Original-URL", "X-Forwarded-Host"}[rng.Intn(11)], []string{"v1", "1", "", "zz", ",", ", ,", " ", "1.2.3.4, 5.6.7.8", ":", "GET", "DELETE", "/"}[rng.Intn(12)]})
 		}
 		if rng.Intn(10) == 0 {
 			rq.URI = []string{"*", "*", "http://other.example/abs?x=1", "\x00", "/other"}[rng.Intn(5)]
